@@ -357,7 +357,8 @@ Inductive op :=
 | OpStop (t : nat) (dt : Q)
 | OpFetch (ids : list nat) (dt : Q)
 | OpBusy
-| OpSleep.
+| OpSleep
+| OpAdvanceTo (to : Q).      (* time_keeper.advance_to(to) called directly (public API of the time keeper) *)
 
 (* a delivered result: trial id, pending entry (ghost tag, result, st_tuner_time) *)
 Definition delivered := (nat * pend)%type.
@@ -440,6 +441,7 @@ Definition step (st : state) (o : op) : res (state * output) :=
       bind (process_now st) (fun st1 => Ok (st1, OutBusy (busy st1)))
   | OpSleep =>
       bind (advance st (sleep_time S_)) (fun st1 => Ok (st1, OutNone))
+  | OpAdvanceTo to => Ok (advance_to st to, OutNone)
   end.
 
 (* run an operation sequence; stops at the first error (the exception leaves
